@@ -15,7 +15,7 @@ MANIFEST = {
   'text': 'For every sequence of up to 2 (thorough 3) datapoints from an alphabet chosen to hit every parser shortcut '
           '(ASCII / 2-,3-,4-byte UTF-8 names, integer and fractional timestamps up to 2^32-1, integer, subnormal, huge, '
           'signed-zero and infinite values), every batching into lines / datagrams / pickle frames and independent '
-          'encoder variants (LF/CRLF, space/tab, pickle protocols 0-5, list/tuple), the receiver state is explored over '
+          'encoder variants (LF/CRLF, space/tab, pickle protocols 0-5, list/tuple, and python2-client pickles whose names are 8-bit UTF-8 strings: STRING/SHORT_BINSTRING/BINSTRING opcodes assembled by hand), the receiver state is explored over '
           'ALL cut positions; the delivered log must equal the sent sequence exactly (order, exactly once, name, '
           'timestamp, value with sign of zero), no exception may escape and the transport must stay open.',
   'note': 'Trusted: the independent encoder in mc/wire.py, the canonical receiver state (cross-checked by the <=k-cut '
@@ -79,6 +79,11 @@ def case_streams(idx, seq):
   for groups in compositions(seq):
     out.append(('pickle', {'protocol': proto, 'container': cont.__name__, 'pair': pair.__name__, 'frames': [len(g) for g in groups]},
                 b''.join(wire.pickle_frame(g, proto, cont, pair) for g in groups)))
+    # the same message as a python2 client pickles it: names are 8-bit strings holding UTF-8
+    p2 = (idx + len(groups)) % 3
+    style = ['short', 'long'][(idx // 3) % 2]
+    out.append(('pickle', {'py2_client': True, 'protocol': p2, 'strings': style, 'frames': [len(g) for g in groups]},
+                b''.join(wire.pickle_frame_py2(g, p2, style) for g in groups)))
     grams = []
     for gi, g in enumerate(groups):
       data = b''.join(wire.line(n, ts, v, sep, end) for n, ts, v in g)
